@@ -1,9 +1,14 @@
 #!/bin/sh
-# developer tool: run every claimed quick check for several seeds on the unchanged tree; report any alarm
-cd /verif
+# developer tool: run quick checks for several seeds on the unchanged tree; report any alarm
+# usage: seed_sweep.sh "C02 C03 ..."|all seed...     (location-relative: usable from a vp run snapshot)
+cd "$(dirname "$0")/.."
+PROPS=$1; shift
+[ "$PROPS" = all ] && PROPS=$(python3 -c "import json;print(' '.join(c['property_id'] for c in json.load(open('MANIFEST.json'))['checks']))")
+L=${TMPDIR:-/tmp}/sweep_$$; mkdir -p $L
 for seed in "$@"; do
-  for p in $(python3 -c "import json;print(' '.join(c['property_id'] for c in json.load(open('/verif/MANIFEST.json'))['checks']))"); do
-    VERIF_SEED=$seed /venv/bin/python harness/vcheck.py $p --tier quick > /tmp/sweep_${p}_$seed.log 2>&1; rc=$?
-    echo "seed=$seed $p rc=$rc $(grep -c '^VIOLATION' /tmp/sweep_${p}_$seed.log) $(tail -1 /tmp/sweep_${p}_$seed.log | cut -c1-120)"
+  for p in $PROPS; do
+    VERIF_SEED=$seed /venv/bin/python harness/vcheck.py $p --tier quick > $L/${p}_$seed.log 2>&1; rc=$?
+    grep '^VIOLATION\|HARNESS ERROR' $L/${p}_$seed.log | head -3
+    echo "seed=$seed $p rc=$rc $(grep -c '^VIOLATION' $L/${p}_$seed.log) $(tail -1 $L/${p}_$seed.log | cut -c1-120)"
   done
 done
